@@ -5,10 +5,12 @@ package main
 
 import (
 	"encoding/json"
+	"fmt"
 	"math/rand"
 	"os"
 	"regexp"
 	"strings"
+	"sync"
 
 	"github.com/flamego/flamego/internal/route"
 )
@@ -200,6 +202,9 @@ func synReplay(raw json.RawMessage, idx int, tr *traceWriter) {
 		synOne(decBytes(c.Raw), tr)
 		return
 	}
+	if idx%200 == 0 {
+		synConcurrentRender(idx, tr)
+	}
 	rng := rand.New(rand.NewSource(int64(idx)*31337 + int64(envInt("VERIF_SEED", 1))))
 	variants := envInt("VERIF_VARIANTS", 2)
 	for v := 0; v < variants; v++ {
@@ -216,6 +221,51 @@ func synReplay(raw json.RawMessage, idx int, tr *traceWriter) {
 		tr.emit(map[string]interface{}{"case": idx, "ev": "reset", "input": synCase{Raw: encBytes(b.String()), Has: true}, "nt": len(c.Cs) > 1})
 		synOne(b.String(), tr)
 	}
+}
+
+// synConcurrentRender: the canonical rendering of a parsed route is a function of that route alone - also when several
+// freshly parsed routes are rendered for the first time at the same moment (the first requests after start-up do that).
+// 24 distinct routes are parsed twice; one copy of each is rendered alone, the other copies are rendered by 24
+// goroutines released together.
+func synConcurrentRender(idx int, tr *traceWriter) {
+	p, err := route.NewParser()
+	if err != nil {
+		panic(err)
+	}
+	const n = 24
+	want := make([]string, n)
+	got := make([]string, n)
+	routes := make([]*route.Route, n)
+	for i := 0; i < n; i++ {
+		text := fmt.Sprintf("/api-%d-%d/v%d/{owner-%d}/x{id%d: /[a-z0-9]{1,%d}/, kind: lit%d}.{ext}/?{tail%d: **, capture: %d}", idx, i, i, i, i, 10+i, i, i, 1+i%5)
+		a, err1 := p.Parse(text)
+		b, err2 := p.Parse(text)
+		if err1 != nil || err2 != nil {
+			panic(fmt.Sprint("harness route does not parse: ", err1, err2))
+		}
+		want[i] = a.String()
+		routes[i] = b
+	}
+	var wg sync.WaitGroup
+	start := make(chan struct{})
+	for i := 0; i < n; i++ {
+		wg.Add(1)
+		go func(i int) {
+			defer wg.Done()
+			<-start
+			got[i] = routes[i].String()
+		}(i)
+	}
+	close(start)
+	wg.Wait()
+	bad := 0
+	for i := range want {
+		if got[i] != want[i] {
+			bad++
+		}
+	}
+	tr.emit(map[string]interface{}{"case": idx, "ev": "reset", "input": map[string]interface{}{"cs": []string{}}, "nt": true})
+	tr.emit(map[string]interface{}{"ev": "renderconc", "routes": n, "differing": bad})
 }
 
 // random derivation of the grammar
